@@ -152,6 +152,7 @@ type VerifBindingState struct {
 	DemandUpTo        int64
 	UnconfirmedSeqs   []int64
 	UnconfirmedIDs    []string
+	UnconfirmedStore  []int64
 }
 
 // VerifWorkPullingState is a scalar projection of workPullingProducerController.
@@ -159,6 +160,7 @@ type VerifWorkPullingState struct {
 	SessionID              string
 	StoreSeq               int64
 	PendingIDs             []string
+	PendingStoreSeqs       []int64
 	Bindings               []VerifBindingState
 	NextWorker             int
 	Handshake              int
@@ -188,6 +190,7 @@ func (x *workPullingProducerController) VerifState() VerifWorkPullingState {
 
 	for _, work := range x.pending {
 		state.PendingIDs = append(state.PendingIDs, work.messageID)
+		state.PendingStoreSeqs = append(state.PendingStoreSeqs, work.storeSeq)
 	}
 
 	for _, name := range x.bindingOrder {
@@ -208,6 +211,7 @@ func (x *workPullingProducerController) VerifState() VerifWorkPullingState {
 		for _, message := range binding.unconfirmed {
 			projected.UnconfirmedSeqs = append(projected.UnconfirmedSeqs, message.workerSeq)
 			projected.UnconfirmedIDs = append(projected.UnconfirmedIDs, message.messageID)
+			projected.UnconfirmedStore = append(projected.UnconfirmedStore, message.storeSeq)
 		}
 
 		state.Bindings = append(state.Bindings, projected)
